@@ -20,6 +20,7 @@ def spec(tier):
     tfix = dict(tps=1, poll_ticks=1, c4=1, k0=0, k1=0, s1=True, s2=False, d1=2, pools=2, K=8)
     for w in ("assigned", "complete_reported", "idle_call", "idle_skip", "suspended", "inadmissible_decision"):
         obs.append(twin(f"rest_{w}", "c19.rest_protocol", tsym, dict(tfix, poll_ticks=3) if w == "idle_skip" else tfix, w, timeout=150))
+    obs.append(KN(name="poll_rule", func="vf.kernels.c19:poll_rule", args=dict(tier=tier), timeout=300))
     return PropSpec(
         property_id="C19", obligations=obs,
         functions=["rest_init", "rest_scheduler", "_parse_assignments", "_parse_suspensions", "Pipeline.to_dict", "Operator.to_dict", "ResourcePool.to_dict",
@@ -28,7 +29,7 @@ def spec(tier):
         outside=["the Go reference implementation (go/naive, go/eudoxia/types.go): no Go tool-chain in the sandbox and no Go front end to an SMT encoding",
                  "sockets and the JSON wire encoding (the stub M5 replaces requests.post; the payload is checked to consist of JSON types only)",
                  "replies with several assignments per call"],
-        assumptions=A_ASSUME + ["M5 HTTP stub: requests.post replaced; replies are built from symbolic choices among the operators/containers offered in the request"],
+        assumptions=A_ASSUME + ["M10 RLX for the poll-interval arithmetic (all tick rates)", "M5 HTTP stub: requests.post replaced; replies are built from symbolic choices among the operators/containers offered in the request"],
         explanation=("CrossHair+z3 runs the real rest_init/rest_scheduler against a stub HTTP server whose decisions (which ready operator, which pool, whether to suspend) are symbolic; every "
                      "request is compared with the true state at that moment (results of the last tick, pool figures, operator states, no resource-need keys, new/other disjoint, a completed "
                      "pipeline reported exactly once), the call schedule is compared with the poll-interval rule, the returned Assignment/Suspend objects with the reply, and the whole run "
